@@ -19,12 +19,13 @@ def classify(w):
     absorb = [x for x in prev if x.startswith("abs_")]
     if last == "abs_fo" and absorb and absorb[-1] == "abs_seq" and "changed lagtime from True to False" in what:
         return "first_order_absorption_after_seq_removes_lag_time"
-    if last == "lag_on" and absorb and absorb[-1] == "abs_seq" and what.startswith("reversibility"):
-        return "lag_time_requested_with_seq_zo_fo_absorption"
     elim = [x for x in prev if x.startswith("elim_")]
-    if last == "metabolite" and elim and elim[-1] in ("elim_mm", "elim_zo", "elim_mix") and \
-            what.startswith("frame: metabolite changed elimination from") and what.endswith("to ('FO',)"):
+    if last in ("metabolite", "metabolite_psc") and elim and elim[-1] in ("elim_mm", "elim_zo", "elim_mix") and \
+            what.startswith(f"frame: {last} changed elimination from") and what.endswith("to ('FO',)"):
         return "metabolite_on_nonlinear_elimination_reported_as_first_order"
+    if last == "metabolite_psc" and start == "pheno" and prev == ["transits_3"] and \
+            what.startswith("frame: metabolite_psc changed transits from 3 to 2"):
+        return "presystemic_metabolite_on_chain_without_depot_counts_last_transit_as_depot"
     if last in ("transits_1", "transits_1_nodepot") and "transits_3" in prev and what.startswith("detectability"):
         i = prev.index("transits_3")
         had_depot = start == "pheno_oral" or any(x in ("abs_fo", "abs_seq") for x in prev[:i])
